@@ -7,7 +7,8 @@
 (* size, number of did:nuts documents on the network, service / key count  *)
 (* of the latest did:web document) must be behaviours of Subject.tla with  *)
 (* the descriptive constants.  Traces are concatenated; "reset" starts the *)
-(* next one.                                                               *)
+(* next one; its first event "config" carries the configuration the real   *)
+(* node ran with (enabled DID methods, naming of Create).                  *)
 (***************************************************************************)
 EXTENDS MCSubject, IOUtils
 
@@ -22,23 +23,32 @@ SeqSet(q) == {q[i] : i \in DOMAIN q}
 \* the projection logged by the driver equals the model state AFTER the step
 ProjOK(s) ==
     LET p == Ev.st[s] IN
-    /\ p.rows = 2 * Cardinality(rows'[s])
+    \* the DIDs listed under the subject's name: one per enabled method and generation
+    /\ p.rows = Cardinality(Methods) * Cardinality(rows'[s])
     /\ SeqSet(p.web) = {v.n : v \in vers'[s]["web"]}
     /\ SeqSet(p.nuts) = {v.n : v \in vers'[s]["nuts"]}
-    /\ (rows'[s] # {} => p.pub = Len(pub'[s]))   \* counted for the listed DID only
-    /\ (vers'[s]["web"] # {} =>
-          LET c == CHOOSE v \in vers'[s]["web"] : \A w \in vers'[s]["web"] : w.n <= v.n IN
+    /\ (rows'[s] # {} /\ "nuts" \in Methods => p.pub = Len(pub'[s]))   \* counted for the listed DID only
+    \* service / key count of the latest document of the reference DID (did:web when enabled)
+    /\ LET rm == IF "web" \in Methods THEN "web" ELSE "nuts" IN
+       (vers'[s][rm] # {} =>
+          LET c == CHOOSE v \in vers'[s][rm] : \A w \in vers'[s][rm] : w.n <= v.n IN
           p.svc = c.svc /\ p.nkeys = Cardinality(c.keys))
 StateOK == /\ \A s \in Subjects : ProjOK(s)
            /\ Ev.log = Cardinality(log')
 
 TReset == /\ IsEvent("reset")
           /\ rows' = [s \in Subjects |-> {}]
-          /\ vers' = [s \in Subjects |-> [m \in Methods |-> {}]]
+          /\ vers' = [s \in Subjects |-> [m \in AllMethods |-> {}]]
+          /\ owner' = [s \in Subjects |-> NoOwner] /\ UNCHANGED cfg
           /\ log' = {} /\ pub' = [s \in Subjects |-> <<>>]
           /\ pc' = [p \in Procs |-> Idle] /\ nops' = 0 /\ faults' = 0 /\ ticks' = 0 /\ sweeps' = 0 /\ swept' = TRUE
           /\ pubtx' = {} /\ abandoned' = {} /\ pubkeys' = {} /\ retryOp' = [s \in Subjects |-> "none"]
           /\ phase' = "run" /\ todo' = {} /\ hist' = <<>>
+
+\* first event of every real trace: the configuration the node ran with and the way the driver named the subjects
+TConfig == /\ IsEvent("config") /\ nops = 0 /\ \A s \in Subjects : rows[s] = {}
+           /\ cfg' = [ms |-> SeqSet(Ev.methods), nm |-> Ev.naming]
+           /\ UNCHANGED <<rows, vers, log, pub, pc, nops, faults, ticks, sweeps, swept, pubtx, abandoned, pubkeys, retryOp, phase, todo, owner, hist>>
 
 \* the first SQL transaction: refused / no change / changed, as the real call reported
 TTx1 == /\ IsEvent("tx1") /\ Tx1Core(Ev.op, Ev.s, Ev.p)
@@ -56,7 +66,7 @@ TSweep == /\ IsEvent("sweep") /\ Sweep
           /\ Ev.aborted <=> (log' = log /\ \E x \in log : Old(x) /\ x.m = "nuts" /\ NutsErr(x))
           /\ StateOK
 
-TraceNext == TReset \/ TTx1 \/ TCommit \/ TTx2 \/ TStop \/ TTick \/ TSweep
+TraceNext == TReset \/ TConfig \/ TTx1 \/ TCommit \/ TTx2 \/ TStop \/ TTick \/ TSweep
 TraceInit == Init /\ l = 1 /\ TLCSet(1, 1)
 TraceSpec == TraceInit /\ [][TraceNext]_tvars
 
